@@ -13,6 +13,16 @@ type elem struct {
 
 func (ev *elem) Set(v0 any) error {
 	var err error
+	// The variable may have been assigned since MakeElement looked at it, for
+	// instance by an earlier lvalue of the same command (set a[0] a[1] = x y),
+	// so look up the containers again before building the new value.
+	ev.assocers[0] = ev.variable.Get()
+	for i, index := range ev.indices[:len(ev.indices)-1] {
+		ev.assocers[i+1], err = vals.Index(ev.assocers[i], index)
+		if err != nil {
+			return err
+		}
+	}
 	v := v0
 	// Evaluate the actual new value from inside out. See comments in
 	// MakeElement for how element assignment works.
